@@ -41,7 +41,7 @@ def R(expr=(), stmt=(), **kw):
     kw.setdefault("float_", _float)
     kw.setdefault("unit", "(Except.ok ({e}))")
     kw.setdefault("binop", {P.ast.Div: "({a} / {b})"})
-    return P.Rules2M(expr=expr, stmt=stmt, **kw)
+    return P.Rules2N(expr=expr, stmt=stmt, **kw)
 
 
 def _bool(text):
@@ -65,7 +65,7 @@ def items():
     from menpo.transform import Rotation, Affine, Homogeneous
     from menpo.shape import PointCloud
     from menpo.image import Image
-    T = P.Translator2M
+    T = P.Translator2N
     out = []
     STUB = ".error .typeError"
 
@@ -138,7 +138,8 @@ def items():
 
     # ------------------------------------------------------------------ tcoords.py
     tco = R(expr=[
-        ("Scale(np.array($s) - 1)", "((genScale (shapeMinusOne {s}) none).bind ScaleObj.toTr)", "bind"),
+        ("np.array($s) - 1", "(shapeMinusOne {s})"),
+        ("Scale($x)", "((genScale {x} none).bind ScaleObj.toTr)", "bind"),
         ("np.array($m)", "({m} : Rows)"),
         ("Homogeneous($m)", "(Tr.ofHRows Cls.homogeneous {m})", "bind"),
         ("$a.compose_before($b)", "(Tr.composeBefore {a} {b})", "bind"),
@@ -173,7 +174,7 @@ def items():
 
     # ------------------------------------------------------------------ rotation.py: axis and angle
     aa = R(expr=[("$s.n_dims", "({s}.nDims)"), ("$s._axis_and_angle_of_rotation_2d()", "(f2 {s})"),
-                 ("$s._axis_and_angle_of_rotation_3d()", "(f3 {s})")], ret="some ({e})", end="none")
+                 ("$s._axis_and_angle_of_rotation_3d()", "(f3 {s})")], ret="some ({e})", end="none", none_is_end=True)
     out.append(("def genAxisAndAngleOfRotation {α : Type} (f2 f3 : Tr → α) (self : Tr) : Option α :=",
                 lambda: T(aa).function(_fn(Rotation, "axis_and_angle_of_rotation"), {"self": "self"}, ind=1), "none"))
     aa2 = R(expr=[("np.array($x)", "({x} : List Rat)"), ("np.dot($s.rotation_matrix, $v)", "(matVec {s}.linRows {v})"),
@@ -199,9 +200,10 @@ def items():
                 lambda: T(aa3).function(_fn(Rotation, "_axis_and_angle_of_rotation_3d"), {"self": "self"}, ind=1), "none"))
 
     # ------------------------------------------------------------------ rotation.py: quaternions
-    asv = R(expr=[("$s.n_dims", "({s}.nDims)"), ("$s.h_matrix[$i, $j]", "({s}.hGet {i} {j})"),
+    asv = R(expr=[("$s.n_dims", "({s}.nDims)"), ("$s.h_matrix", "({s}.hRows)"),
                   ("np.array($m)", "({m} : Rows)"), ("$m / 3.0", "(Rows.divScalar {m} 3)"),
                   ("np.linalg.eigh($K)", "(eigh {K})"), ("$V[$idx, np.argmax($w)]", "(pickCol {V} {idx} (argmaxL {w}))"),
+                  ("$m[$i, $j]", "(Rows.get {m} {i} {j})"),
                   ("$q[0]", "({q}.getD 0 0)"), ("-$q", "(vecNeg {q})")])
     out.append(("def genAsVector (eigh : Rows → List Rat × Rows) (self : Tr) : Except Err (List Rat) :=",
                 lambda: T(asv).function(_fn(Rotation, "_as_vector"), {"self": "self"}, ind=1), STUB))
